@@ -1,6 +1,43 @@
 //! Stand-in caller process for the end-to-end rig: accepts any argv, does nothing, exits when its parent dies.
+//! With VHELPER_ALT=<path> in the environment it replaces its own image by that executable (same pid, same
+//! argv tail) whenever it receives SIGUSR1 - a process that `exec`s another program.
+use std::sync::atomic::{AtomicBool, Ordering};
+
+static MORPH: AtomicBool = AtomicBool::new(false);
+
+extern "C" fn on_usr1(_: libc::c_int) {
+    MORPH.store(true, Ordering::SeqCst);
+}
+
 fn main() {
+    let alt = std::env::var("VHELPER_ALT").ok();
+    if alt.is_some() {
+        // SIGUSR1 is blocked across spawn and exec (see below and ns.rs): a signal that arrives before the handler
+        // is installed stays pending instead of killing the new image
+        unsafe {
+            libc::signal(libc::SIGUSR1, on_usr1 as *const () as usize);
+            let mut set: libc::sigset_t = std::mem::zeroed();
+            libc::sigemptyset(&mut set);
+            libc::sigaddset(&mut set, libc::SIGUSR1);
+            libc::sigprocmask(libc::SIG_UNBLOCK, &set, std::ptr::null_mut());
+        }
+    }
     loop {
-        std::thread::sleep(std::time::Duration::from_secs(3600));
+        std::thread::sleep(std::time::Duration::from_millis(if alt.is_some() { 2 } else { 3_600_000 }));
+        if MORPH.swap(false, Ordering::SeqCst) {
+            if let Some(alt) = &alt {
+                use std::os::unix::process::CommandExt;
+                let me = std::env::current_exe().map(|p| p.display().to_string()).unwrap_or_default();
+                let args: Vec<String> = std::env::args().skip(1).collect();
+                unsafe {
+                    let mut set: libc::sigset_t = std::mem::zeroed();
+                    libc::sigemptyset(&mut set);
+                    libc::sigaddset(&mut set, libc::SIGUSR1);
+                    libc::sigprocmask(libc::SIG_BLOCK, &set, std::ptr::null_mut());
+                }
+                let err = std::process::Command::new(alt).args(&args).env("VHELPER_ALT", me).exec();
+                eprintln!("vhelper: exec {} failed: {}", alt, err);
+            }
+        }
     }
 }
